@@ -95,7 +95,14 @@ def prover_schedule(F, collect=None):
             sub = [subst_item(x, m_) for x in C["trace"]]
             cfields = [(nm, subst_val(vv, m_)) for nm, vv in cfields]
             rr = S.to_regex(sub, S.RoleMap(cfields), lambda tr: True, collect)
-            items.append(("splice", rr))
+            # the n = 2h instance cannot be a length-1 argument; that instance (k = 0 rounds) is analysed on its own and
+            # offered as an alternative, so an early exit taken only at n == 1 is part of the role's language
+            C1 = ipp.analyse_create_n1(F)
+            if "error" in C1:
+                raise C1["error"]
+            sub1 = [subst_item(x, {C1["n"]: n}) for x in C1["trace"]]
+            rr1 = S.to_regex(sub1, S.RoleMap([]), lambda tr: True, collect)
+            items.append(("splice", ("alt", rr1, rr)))
         else:
             items.append(it)
     r_main = S.to_regex(items, S.RoleMap(fields), main_filter, collect)
